@@ -6,6 +6,8 @@ package main
 // form by turning it into the same ordered field list they use for the stream forms.
 
 import (
+	"go/constant"
+	"go/types"
 	"sort"
 
 	"golang.org/x/tools/go/ssa"
@@ -115,40 +117,145 @@ func writesThrough(sl *ssa.Slice) bool {
 	return false
 }
 
-// positionalBuilder: fn returns a slice it allocated with make and filled by positional writes that
-// tile it from offset 0 without gap or overlap, the last one being a copy of variable length.
-// Returns the writes as an ordered field list (the form bufferWrites yields) and the allocation.
-func positionalBuilder(fn *ssa.Function) (writes []bufWrite, base *ssa.MakeSlice, ok bool) {
+// positionalFields: the writes into base tile [0, limit) without overlap (limit < 0: up to a final
+// copy of variable length), every one of them dominating `before` and outside loops. Bytes that no
+// write touches count as a zero field (fresh memory is zero); adjacent single-byte stores form one
+// field. Returns the ordered field list.
+func positionalFields(base ssa.Value, limit int64, before ssa.Instruction) (writes []bufWrite, ok bool) {
+	ws, exact := posWrites(base)
+	if !exact || len(ws) == 0 {
+		return nil, false
+	}
+	zero := func(at ssa.Instruction, width int64) bufWrite {
+		return bufWrite{call: at, width: int(width), val: ssa.NewConst(constant.MakeInt64(0), types.Typ[types.Uint64])}
+	}
+	next := int64(0)
+	for i := 0; i < len(ws); i++ {
+		w := ws[i]
+		if w.off < next || inCycle(w.at.Block()) || !dominatesInstr(w.at, before) {
+			return nil, false
+		}
+		if w.off > next {
+			writes = append(writes, zero(w.at, w.off-next))
+			next = w.off
+		}
+		switch w.kind {
+		case "put":
+			writes = append(writes, bufWrite{call: w.at, width: w.width, val: w.val})
+			next += int64(w.width)
+		case "store":
+			// p[i], p[i+1], ... = a, b, ...: one field of as many bytes
+			n := 1
+			elems := []ssa.Value{w.val}
+			for i+n < len(ws) && ws[i+n].kind == "store" && ws[i+n].off == w.off+int64(n) {
+				elems = append(elems, ws[i+n].val)
+				n++
+			}
+			writes = append(writes, bufWrite{call: w.at, width: n, val: w.val, elems: elems})
+			next += int64(n)
+			i += n - 1
+		case "copy":
+			if i != len(ws)-1 || limit >= 0 {
+				return nil, false
+			}
+			writes = append(writes, bufWrite{call: w.at, width: -1, val: w.val})
+			return writes, true
+		default:
+			return nil, false
+		}
+	}
+	if limit < 0 {
+		return nil, false // no variable-length tail
+	}
+	if next > limit {
+		return nil, false
+	}
+	if next < limit {
+		writes = append(writes, zero(before, limit-next))
+	}
+	return writes, true
+}
+
+// positionalBuilder: fn returns a slice it allocated with make and filled by positional writes: either
+// the whole packet (make([]byte, K+len(data)), fields, copy(p[K:], data)), or the fixed part
+// (make([]byte, K, cap), fields) with the variable part appended (return append(p, data...)).
+// Returns the writes as an ordered field list (the form bufferWrites yields) and the value that
+// stands for the assembled buffer (the allocation, or the final append).
+func positionalBuilder(fn *ssa.Function) (writes []bufWrite, buf ssa.Value, ok bool) {
 	rets := returnsOf(fn)
 	if len(rets) != 1 || len(rets[0].Results) == 0 {
 		return nil, nil, false
 	}
-	ms, isMake := strip(unspill(rets[0].Results[0])).(*ssa.MakeSlice)
-	if !isMake || inCycle(ms.Block()) {
-		return nil, nil, false
+	rv0 := strip(unspill(rets[0].Results[0]))
+	if ms, isMake := rv0.(*ssa.MakeSlice); isMake && !inCycle(ms.Block()) {
+		ws, ok := positionalFields(ms, -1, rets[0])
+		return ws, ms, ok
 	}
-	ws, exact := posWrites(ms)
-	if !exact || len(ws) == 0 {
-		return nil, nil, false
-	}
-	next := int64(0)
-	for i, w := range ws {
-		call, isCall := w.at.(*ssa.Call)
-		if !isCall || w.off != next || inCycle(w.at.Block()) || !dominatesInstr(w.at, rets[0]) {
-			return nil, nil, false
-		}
-		switch w.kind {
-		case "put":
-			writes = append(writes, bufWrite{call: call, width: w.width, val: w.val})
-			next += int64(w.width)
-		case "copy":
-			if i != len(ws)-1 {
-				return nil, nil, false
+	if ap, isCall := rv0.(*ssa.Call); isCall {
+		if bi, isB := ap.Call.Value.(*ssa.Builtin); isB && bi.Name() == "append" && len(ap.Call.Args) == 2 && !inCycle(ap.Block()) {
+			if ms, isMake := strip(ap.Call.Args[0]).(*ssa.MakeSlice); isMake && !inCycle(ms.Block()) {
+				if k, isC := constInt(ms.Len); isC && k > 0 {
+					ws, ok := positionalFields(ms, k, ap)
+					if !ok {
+						return nil, nil, false
+					}
+					ws = append(ws, bufWrite{call: ap, width: -1, val: ap.Call.Args[1]})
+					return ws, ap, true
+				}
 			}
-			writes = append(writes, bufWrite{call: call, width: -1, val: w.val})
-		default:
-			return nil, nil, false
 		}
 	}
-	return writes, ms, true
+	return nil, nil, false
+}
+
+// positionalArrayBody: fn lays a packet body out in a local byte array (var body [N]byte) by
+// positional writes and hands body[:] on (to createPacket, or as its result). Returns the field
+// list and the slice value that stands for the body.
+func positionalArrayBody(fn *ssa.Function) (writes []bufWrite, body ssa.Value, ok bool) {
+	for _, b := range fn.Blocks {
+		for _, in := range b.Instrs {
+			al, isAl := in.(*ssa.Alloc)
+			if !isAl || inCycle(al.Block()) {
+				continue
+			}
+			arr, isArr := al.Type().Underlying().(*types.Pointer).Elem().Underlying().(*types.Array)
+			if !isArr {
+				continue
+			}
+			if bt, isB := arr.Elem().Underlying().(*types.Basic); !isB || bt.Kind() != types.Uint8 {
+				continue
+			}
+			// the whole-array slice that is handed on
+			for _, r := range *al.Referrers() {
+				sl, isSl := r.(*ssa.Slice)
+				if !isSl || sl.X != ssa.Value(al) || sl.Low != nil || sl.Max != nil {
+					continue
+				}
+				if sl.High != nil {
+					if k, isC := constInt(sl.High); !isC || k != arr.Len() {
+						continue
+					}
+				}
+				handedOn := false
+				for _, u := range *sl.Referrers() {
+					switch x := u.(type) {
+					case *ssa.Call:
+						if calleeName(x) == protoPkg+".createPacket" {
+							handedOn = true
+						}
+					case *ssa.Return:
+						handedOn = true
+					}
+				}
+				if !handedOn {
+					continue
+				}
+				ws, ok := positionalFields(al, arr.Len(), sl)
+				if ok {
+					return ws, sl, true
+				}
+			}
+		}
+	}
+	return nil, nil, false
 }
